@@ -175,7 +175,7 @@ def run(repo: Repo, chk: Check) -> None:
     chk.scope_decides = (
         "O1 writer table = reader table for the 26 binary codecs of _rpc and _epm (field order, widths, byte order, bit fields, "
         "length/count prefixes, padding formulas as canonical residues, per-element advance of repeated elements, PDU framing), "
-        "symbolically in all values and lengths; O2 writer tables = reference tables transcribed from C706/MS-RPCE; "
+        "symbolically in all values and lengths, and no pack/unpack function writes a module or class level container (codecs have no memory); O2 writer tables = reference tables transcribed from C706/MS-RPCE; "
         "O3 every decoder loop carries a termination certificate bounded by a <= 2 byte count or by the input size; "
         "O4 registry completeness, open enum members keep their integer value, the verification trailer loop ends exactly on the END bit."
     )
